@@ -61,9 +61,21 @@ Definition fill_ok (objs : list (Z * list hpt)) (out : list (Z * Z * Z)) : bool 
   strictly_sorted out && forallb (row_ok objs) out &&
   (length (fill_spec_list objs) <=? length out)%nat.
 
+(* convexity of a vertex cycle as the theorems about the scan-line model need it: all vertices on
+   one common closed side of every edge *)
+Definition convex_ok (h : list hpt) : bool :=
+  forallb (fun e => forallb (fun v => 0 <=? cross (fst e) (snd e) v) h) (poly_edges h) ||
+  forallb (fun e => forallb (fun v => cross (fst e) (snd e) v <=? 0) h) (poly_edges h).
+Fixpoint distinct_labels (ls : list Z) : bool :=
+  match ls with [] => true | a :: t => negb (existsb (Z.eqb a) t) && distinct_labels t end.
+Definition fill_hyp_ok (objs : list (Z * list hpt)) : bool :=
+  distinct_labels (map fst objs) && forallb (fun o => convex_ok (snd o)) objs.
+
 Definition as_triple (x : sx) : Z * Z * Z := (as_Z (arg 0 x), as_Z (arg 1 x), as_Z (arg 2 x)).
 (* (objs out) -> bool *)
 Definition entry_fill_check (x : sx) : sx :=
   of_bool (fill_ok (map as_obj (as_list (arg 0 x))) (map as_triple (as_list (arg 1 x)))).
 (* objs -> the specified rows *)
 Definition entry_fill_spec (x : sx) : sx := of_triples (fill_spec_list (map as_obj (as_list x))).
+(* objs -> do the hypotheses of the scan-line correctness theorem hold for this input? *)
+Definition entry_fill_hyp (x : sx) : sx := of_bool (fill_hyp_ok (map as_obj (as_list x))).
